@@ -85,7 +85,8 @@ ContainWrapped ==
   /\ UNCHANGED <<phase, done, applied, ver, steps>>
 \* the root wrapper was constructed under filter_vmap with axis size 2 (its arrays carry a leading batch axis)
 Batch == /\ phase = "build" /\ IsWrapper(root) /\ nodes[root].b = 0 /\ nodes[root].k \in {"rep", "lam", "where", "nt"}
-         /\ \A d \in Below(root) : nodes[d].b = 0 /\ nodes[d].k # "wn"
+         /\ \A d \in Below(root) : nodes[d].k # "wn"
+         /\ Cardinality({d \in Below(root) : nodes[d].b > 0}) <= 1       \* 0-2 levels of vmapped construction
          /\ nodes' = [nodes EXCEPT ![root].b = 2]
          /\ UNCHANGED <<root, phase, done, applied, ver, steps>>
 
